@@ -13,6 +13,59 @@ func init() { register("C05", checkC05) }
 func checkC05(p *Prog, r *Report) {
 	hrc := p.Fn("Agent.handleRoleConflict")
 	hir := p.Fn("Agent.handleInboundRequest")
+	if hrc == nil && hir != nil {
+		// under another name: the one function the request handler calls that can change the role flag
+		var cands []*Func
+		seen := map[*Func]bool{}
+		for _, e := range p.CG().Out[hir] {
+			if e.Callee != nil && e.Callee.Pkg == p.Ice && !e.Go && !seen[e.Callee] && p.WritesField(e.Callee, "Agent.isControlling") {
+				seen[e.Callee] = true
+				cands = append(cands, e.Callee)
+			}
+		}
+		if len(cands) == 1 {
+			hrc = cands[0]
+		}
+	}
+	// ---- R5.6 a role switch ends the handling of the request (whatever the functions are called) ------------
+	r.Rule("R5.6", "Wherever the role flag is switched while a request is being handled (in the function that does it, after inlining of new helpers), nothing that treats the request as a connectivity check can follow: no HandleBindingRequest, no success response, no selection after the switch.", 1)
+	nSwitch := 0
+	for _, f := range p.AllFuncs {
+		if f.Pkg != p.Ice || f.Body == nil {
+			continue
+		}
+		g := p.CFG(f)
+		walkBody(f, func(n ast.Node) bool {
+			c, ok := n.(*ast.CallExpr)
+			if !ok || !p.isMethodOnField(c, "Agent.isControlling", "Store") {
+				return true
+			}
+			// only switches (the stored value depends on the current one), not initialisation
+			if !p.MentionsField(c.Args[0], "Agent.isControlling") {
+				return true
+			}
+			nSwitch++
+			loc, okL := g.Locate(c)
+			if !okL {
+				r.Unknown("role switch in "+f.Name, p.Pos(c.Pos()), "switch not located in the CFG")
+				return true
+			}
+			bad := ""
+			for _, nd := range g.NodesAfter(loc) {
+				for _, c2 := range p.NodeCalls(nd) {
+					switch nm := p.CalleeName(c2); nm {
+					case "ice.pairCandidateSelector.HandleBindingRequest", "ice.Agent.sendBindingSuccess", "ice.Agent.setSelectedPair":
+						bad = nm + " at " + p.Pos(c2.Pos())
+					}
+				}
+			}
+			r.Check(bad == "", "after a role switch in "+f.Name, p.Pos(c.Pos()), "no check processing follows", "after switching role the request continues into "+bad+": the conflicting request is answered and processed as a connectivity check by the agent that just changed role")
+			return true
+		})
+	}
+	if nSwitch == 0 {
+		r.Fail("role switch", "agent.go", "no role switch found (rule instance lost)")
+	}
 	if !r.Anchor("Agent.handleRoleConflict", hrc != nil) || !r.Anchor("Agent.handleInboundRequest", hir != nil) {
 		return
 	}
@@ -108,7 +161,7 @@ func checkC05(p *Prog, r *Report) {
 
 	// ---- R5.2 detection and no-check treatment -----------------------------
 	r.Rule("R5.2", "In the request handler the conflict handler is reached only for an authenticated request whose control attribute decoded and carries the receiver's own role; after it the request is not treated as a check: the handler returns (nil,false) without HandleBindingRequest / sendBindingSuccess, and handleRoleConflict cannot reach a success response or a selection.", 4)
-	calls := p.CallsTo(hir, false, "ice.Agent.handleRoleConflict")
+	calls := p.CallsTo(hir, false, "ice."+hrc.Name)
 	if len(calls) == 0 {
 		r.Fail("handleInboundRequest: call of handleRoleConflict", p.Pos(hir.Body.Pos()), "role conflicts are never handled")
 	}
